@@ -115,6 +115,11 @@ class Translate(BaseTranslateFilter, TranslatableFilter):
         plural = kwargs.pop("plural", None)
         n = _count(kwargs.get("count"))
 
+        if plural is not None and n is None:
+            # A message with a plural form is looked up with the plural functions.
+            # Like the translate tag, a missing count defaults to 1.
+            n = 1
+
         if plural is not None and n is not None:
             plural = to_liquid_string(
                 plural,
